@@ -73,6 +73,7 @@ def gen(rng, tier, i):
     host = oip
     expect = "fail"
     badbnd = False
+    badfam = False
     upstream_script = None
     # connector + rules
     if oc in ("ok", "refused", "unreachable", "blackhole", "nxdomain", "bind", "badcmd", "badcreds", "udp-assoc-timeout", "http-unsupported"):
@@ -85,6 +86,12 @@ def gen(rng, tier, i):
     elif oc == "norule":
         sc.add_direct("d")
         sc.rule("d", 'request.target.port == 1')
+    elif oc == "udp-on-tcp-only" and lk == "socks5" and rng.random() < 0.4:
+        # an association that cannot be set up: the client declares (enforceUdpClient) a source address of the other family
+        badfam = True
+        sc.cfg["listeners"][-1]["enforceUdpClient"] = True
+        sc.add_direct("d")
+        sc.rule("d")
     elif oc == "udp-on-tcp-only":
         m = sc.add_direct("d")
         sc.add_loadbalance("lb", [m])
@@ -191,7 +198,7 @@ def gen(rng, tier, i):
         udp = True     # a UDP tunnel the upstream proxy refuses is refused just as a TCP one
     if badbnd:
         udp = True
-    hs, proto = sc.client_handshake(li, host if not (udp and socks_l) else "0.0.0.0", oport if not (udp and socks_l) else 0, variant=variant, creds=creds, udp=udp)
+    hs, proto = sc.client_handshake(li, host if not (udp and socks_l) else ("fd00::77" if badfam else "0.0.0.0"), oport if not (udp and socks_l) else (5000 if badfam else 0), variant=variant, creds=creds, udp=udp)
     if oc == "http-unsupported":
         # a request the HTTP-style listeners do not support: another method, or CONNECT for an unknown Proxy-Protocol
         tgt = "%s:%d" % (oip, oport)
